@@ -9,8 +9,10 @@ RNorm(n, d) == LET g == RGcd(RAbs(n), RAbs(d))  s == IF d < 0 THEN -1 ELSE 1 IN 
 R(n, d) == RNorm(n, d)
 RZero == <<0, 1>>
 ROne == <<1, 1>>
-RAdd(a, b) == RNorm(a[1] * b[2] + b[1] * a[2], a[2] * b[2])
-RSub(a, b) == RNorm(a[1] * b[2] - b[1] * a[2], a[2] * b[2])
+\* common denominator through the lcm keeps intermediates small
+RLcm(x, y) == (x \div RGcd(x, y)) * y
+RAdd(a, b) == LET L == RLcm(a[2], b[2]) IN RNorm(a[1] * (L \div a[2]) + b[1] * (L \div b[2]), L)
+RSub(a, b) == LET L == RLcm(a[2], b[2]) IN RNorm(a[1] * (L \div a[2]) - b[1] * (L \div b[2]), L)
 RMul(a, b) == LET g1 == RGcd(RAbs(a[1]), b[2])  g2 == RGcd(RAbs(b[1]), a[2])
                   h1 == IF g1 = 0 THEN 1 ELSE g1  h2 == IF g2 = 0 THEN 1 ELSE g2
               IN RNorm((a[1] \div h1) * (b[1] \div h2), (a[2] \div h2) * (b[2] \div h1))
